@@ -122,9 +122,9 @@ def enc_int(sx, v, wire):
     if wire == 'msgpack' and v is not None:
         if not (v >= -2 ** 63 and v < 2 ** 64):
             # decimal text, as msgpack str or - the form spyne itself writes - as msgpack bin (one spelling per run)
-            form = getattr(sx, '_huge_int_form', None)
+            form = getattr(sx, '_text_form', None)
             if form is None:
-                form = sx._huge_int_form = sx.choose('huge_int_form', ['str', 'bin'])
+                form = sx._text_form = sx.choose('text_form', ['str', 'bin'])
             return sx.render(v) if form == 'str' else sx.render(v).encode('ascii')
     return v
 
@@ -144,6 +144,12 @@ def ref_encode(val, typ, wrappers, as_list, sx=None, wire=None):
         return {typ: body} if wrappers else body
     if typ == 'int':
         return enc_int(sx, val, wire)
+    if wire == 'msgpack' and typ in ('dec', 'date') and sx is not None:
+        # msgpack: text travels as str or - the form spyne itself writes - as bin (one spelling per run)
+        form = getattr(sx, '_text_form', None)
+        if form is None:
+            form = sx._text_form = sx.choose('text_form', ['str', 'bin'])
+        return val if form == 'str' else val.encode('ascii')
     return val       # leaves: numbers as numbers, bool as bool, str as str, decimal/date already text
 
 
